@@ -68,12 +68,16 @@ pub struct Script {
     pub log: Arc<Mutex<Log>>,
     pub write_fail_after: Option<usize>,
     pub write_fail_kind: u8,
+    /// every k-th write call is answered once with `Interrupted` (EINTR) before it is let through
+    pub write_intr_every: Option<usize>,
+    write_calls: usize,
+    write_just_interrupted: bool,
 }
 
 impl Script {
     pub fn new(segs: Vec<Seg>) -> (Script, Arc<Mutex<Log>>) {
         let log = Arc::new(Mutex::new(Log::default()));
-        (Script { segs: segs.into(), log: log.clone(), write_fail_after: WRITE_FAIL_AFTER.with(|w| w.take()), write_fail_kind: WRITE_FAIL_KIND.with(|w| w.get()) }, log)
+        (Script { segs: segs.into(), log: log.clone(), write_fail_after: WRITE_FAIL_AFTER.with(|w| w.take()), write_fail_kind: WRITE_FAIL_KIND.with(|w| w.get()), write_intr_every: WRITE_INTR_EVERY.with(|w| w.get()), write_calls: 0, write_just_interrupted: false }, log)
     }
 }
 
@@ -138,6 +142,15 @@ thread_local! {
     static WRITE_FAIL_KIND: std::cell::Cell<u8> = const { std::cell::Cell::new(5) };
 }
 
+thread_local! {
+    /// scripted connections made while this is set answer every k-th write call once with `Interrupted`
+    static WRITE_INTR_EVERY: std::cell::Cell<Option<usize>> = const { std::cell::Cell::new(None) };
+}
+
+pub fn set_write_intr_every(k: Option<usize>) {
+    WRITE_INTR_EVERY.with(|w| w.set(k));
+}
+
 pub fn set_write_fail_kind(k: u8) {
     WRITE_FAIL_KIND.with(|w| w.set(k));
 }
@@ -148,6 +161,16 @@ pub fn set_write_limit(n: usize) {
 
 impl Write for Script {
     fn write(&mut self, buf: &[u8]) -> io::Result<usize> {
+        if let Some(k) = self.write_intr_every {
+            if !self.write_just_interrupted && !buf.is_empty() {
+                self.write_calls += 1;
+                if self.write_calls % k.max(1) == 0 {
+                    self.write_just_interrupted = true;
+                    return Err(io::ErrorKind::Interrupted.into());
+                }
+            }
+            self.write_just_interrupted = false;
+        }
         let mut n = buf.len().min(WRITE_LIMIT.with(|w| w.get()));
         let mut log = self.log.lock().unwrap();
         if let Some(cap) = self.write_fail_after {
